@@ -131,11 +131,17 @@ def rule_actions(chk, prog, E):
                 else:
                     chk.violation("K1-action", "process_block:IS_SPARSE", i, "marking a zero block sparse is not guarded by a user flag: nosparse cannot take effect")
     # fragment in end_file
-    f = prog.need_fn("sqfs_block_processor_end_file")
-    f.build()
-    chk.analysed(f)
+    f0 = prog.need_fn("sqfs_block_processor_end_file")
+    f0.build()
+    chk.analysed(f0)
     n = 0
-    for i in f.insts():
+    # the marking may sit in end_file itself or in a static helper it reaches within its unit
+    closure, _e, _u = prog.reachable_from([f0], stop=lambda g: g.unit is not f0.unit)
+    for f in sorted(closure, key=lambda g: g.qname):
+      if f.decl:
+          continue
+      f.build()
+      for i in f.insts():
         if i.op == "store":
             v = unext(i.ops[0])
             if v.is_inst and v.op == "or" and any(o.is_const and o.is_int and o.sval == E["IS_FRAGMENT"] for o in v.ops):
